@@ -31,7 +31,35 @@ pub fn spec(src: &str, off: usize) -> (u32, u32) {
     (line, col)
 }
 
+/// "and hence every source-position attribute in the output": attributes written by the sourcepos plugin
+fn attributes(n: usize, rng: &mut Rng, rep: &mut Report) {
+    let mut c = crate::cfg::Cfg::stock();
+    c.mask |= 1 << crate::cfg::SOURCEPOS;
+    let md = c.build();
+    for i in 0..n {
+        let mut d = match i % 5 { 0 => gen_text(rng), 1 => crate::gen::doc::grammar_doc(rng).replace('\n', "\r"), 2 => format!("\u{feff}{}", crate::gen::doc::grammar_doc(rng)), _ => crate::gen::doc::any_doc(rng) };
+        if i % 7 == 0 { d = d.chars().filter(|c| c.is_ascii()).collect::<String>().replace('\n', "\r"); }
+        let tree = match crate::util::guarded(|| md.parse(&d)) { Ok(t) => t, Err(_) => continue };
+        let input = format!("doc={}", hexs(&d));
+        let mut bad = None;
+        let mut k = 0;
+        tree.walk(|node, _| {
+            if let (Some(m), Some((_, v))) = (node.srcmap, node.attrs.iter().find(|(k, _)| *k == "data-sourcepos")) {
+                let (a, b) = m.get_byte_offsets();
+                let s = spec(&d, a); let e = spec(&d, if b > 0 { b - 1 } else { 0 });
+                let want = format!("{}:{}-{}:{}", s.0, s.1, e.0, e.1);
+                k += 1;
+                if *v != want && bad.is_none() { bad = Some(format!("node with range ({},{}) carries data-sourcepos {:?}, the definition gives {:?}", a, b, v, want)); }
+            }
+        });
+        rep.stats.case(&input, k > 2);
+        rep.stats.add("attributes_checked", k);
+        if let Some(b) = bad { rep.violation("attribute", input, b); }
+    }
+}
+
 pub fn run(n: usize, rng: &mut Rng, rep: &mut Report) {
+    attributes(n * 4, rng, rep);
     let fixed = ["", "a", "abc\ndef", "a\r\nb", "\r\r\n\n", "\n", "\r", "é", "0123456789abcdef0123456789abcdef0123456789", "日本語\n日本語日本語日本語日本語日本語日本語日本語"];
     for i in 0..n + fixed.len() {
         let t = if i < fixed.len() { fixed[i].to_string() } else { gen_text(rng) };
